@@ -7,6 +7,7 @@ keys and curves; verdict by construction for genuine chains, independent verifie
 (`cryptography` + own DER walker) for the rest.
 """
 import base64
+import hashlib
 import itertools
 from collections.abc import Mapping
 import json
@@ -22,6 +23,10 @@ from ..refs import certref as R
 from ..gen import certs as G
 from ..certharness import verdict, same_hex
 
+# process time zones put in force while the code under test runs (POSIX TZ strings; sign inverted)
+ZONES = [None, "VRF3", "VRF-5:30"]          # UTC, UTC-3, UTC+5:30
+ZONE_NAMES = {None: "utc", "VRF3": "utc-3", "VRF-5:30": "utc+5:30"}
+HOUR = timedelta(hours=1)
 SEC = timedelta(seconds=1)
 DAY = timedelta(days=1)
 
@@ -137,7 +142,9 @@ class C07(Check):
             "of the signed_by values, every signed_by function (quick: 4-element chain only); (e) every element signed by "
             "every other key of the hierarchy and by a stranger; (f) P-384 / secp256k1 keys and SHA-384 "
             "at every level incl. the root; (g) wrong / expired / not self-consistent / renamed roots; "
-            "(h) element kinds chained out of order, other key encodings, over/under-long messages; "
+            "(h) element kinds chained out of order, the attestation key in every point encoding the loader "
+            "accepts (uncompressed, raw, compressed, hybrid) and every hex / base64 field in the other "
+            "spellings the decoders accept, all on genuine chains; over/under-long messages; "
             "(i) two quotes whose chains share the first 0..all elements, one own or shared non-leaf "
             "element of the second expired / not yet valid / signed by a stranger / bit-flipped, or its "
             "quote corrupted, or nothing, with the target lists [a, b], [b, a], [a, b, a], [b, a, b], [a], [b]; "
@@ -155,7 +162,7 @@ class C07(Check):
         "X.509 links between certificates are not restricted to P-256 by the statement; only the "
         "certifier of an attestation-key / quote element must carry a P-256 key",
         "dont_care: bit flips in unsigned bytes of a certificate, signatures verifying only under a "
-        "non-strict DER reading, key encodings other than the documented uncompressed one, messages "
+        "non-strict DER reading, a bit flip in the encoding tag of the attestation key, messages "
         "longer than the documented struct, quote certified by something else than an attestation key",
         "X.509 parsing of the oracle: own DER walker for TBS / validity / SPKI / signature; the SPKI "
         "key loader and the ECDSA primitive are `cryptography`'s (OpenSSL), as in the code under test "
@@ -268,12 +275,14 @@ class C07(Check):
                                    % (what, label, exp[:2]))
             if exp[0] == R.OPEN:
                 raise HarnessError("calibration %s/%s: reference verifier leaves the verdict open" % (what, label))
-            got = self.impl.run_v2(doc, root_pem, now)
-            if got[0] != "result" or self.mismatch(doc, {"quote": exp}, got[1]):
-                vs.append(Violation("C07", "C07:calibration:%s:%s" % (what, label),
-                                    {"kind": "calibration", "sample": what, "probe": label}, None,
-                                    {"outcome": got[0], "result": repr(got[1])},
-                                    {"verdict": exp[:2] if exp[0] != R.OK else "ok"}, "recorded sample"))
+            for tz in ZONES:
+                got = self.impl.run_v2(doc, root_pem, now, tz=tz)
+                if got[0] != "result" or self.mismatch(doc, {"quote": exp}, got[1]):
+                    vs.append(Violation("C07", "C07:calibration:%s:%s" % (what, label),
+                                        {"kind": "calibration", "sample": what, "probe": label}, None,
+                                        {"outcome": got[0], "result": repr(got[1]), "zone": ZONE_NAMES[tz]},
+                                        {"verdict": exp[:2] if exp[0] != R.OK else "ok"}, "recorded sample"))
+                    break
         return vs
 
     # ---------------------------------------------------------------------------------
@@ -352,7 +361,8 @@ class C07(Check):
         if k == "one":
             try:
                 self.evaluate(case["doc"], case["root_pem"], from_iso(case["now"]), case.get("label", "replay"),
-                              stats, vs, open_=case.get("open", False), target=case.get("target", "quote"))
+                              stats, vs, open_=case.get("open", False), target=case.get("target", "quote"),
+                              tz=case.get("tz"))
             except _Enough:
                 pass
             return vs
@@ -413,13 +423,24 @@ class C07(Check):
     def run_clock(self, case, stats, vs):
         doc, root_pem, meta = self.chain(case["depth"], case["nest"])
         self.genuine(doc, root_pem, G.T0, "genuine", stats, vs)
-        for name, nb, na in meta["x509"]:
-            for lab, now in (("nb-1s", nb - SEC), ("nb", nb), ("nb+1s", nb + SEC),
-                             ("na-1s", na - SEC), ("na", na), ("na+1s", na + SEC)):
-                self.evaluate(doc, root_pem, now, "clock:" + lab, stats, vs)
-        # far outside everything
-        self.evaluate(doc, root_pem, G.T0 + 3000 * DAY, "clock:far-after", stats, vs)
-        self.evaluate(doc, root_pem, G.T0 - 3000 * DAY, "clock:far-before", stats, vs)
+        for tz in ZONES:
+            for name, nb, na in meta["x509"]:
+                for lab, now in (("nb-1s", nb - SEC), ("nb", nb), ("nb+1s", nb + SEC),
+                                 ("na-1s", na - SEC), ("na", na), ("na+1s", na + SEC)):
+                    self.evaluate(doc, root_pem, now, "clock:" + lab, stats, vs, tz=tz)
+            # far outside everything
+            self.evaluate(doc, root_pem, G.T0 + 3000 * DAY, "clock:far-after", stats, vs, tz=tz)
+            self.evaluate(doc, root_pem, G.T0 - 3000 * DAY, "clock:far-before", stats, vs, tz=tz)
+            # validity periods that begin / end within hours of the reference instant
+            for lab, win in (("expired-90min-ago", (G.T0 - 10 * DAY, G.T0 - 90 * 60 * SEC)),
+                             ("valid-1h-either-side", (G.T0 - HOUR, G.T0 + HOUR)),
+                             ("valid-in-1h", (G.T0 + HOUR, G.T0 + 10 * DAY)),
+                             ("valid-since-10min", (G.T0 - 600 * SEC, G.T0 + 10 * DAY)),
+                             ("valid-for-10min", (G.T0 - 10 * DAY, G.T0 + 600 * SEC)),
+                             ("expired-7h-ago", (G.T0 - 10 * DAY, G.T0 - 7 * HOUR)),
+                             ("valid-in-7h", (G.T0 + 7 * HOUR, G.T0 + 10 * DAY))):
+                d2, rp2, _ = self.chain(case["depth"], case["nest"], leaf_window=win)
+                self.evaluate(d2, rp2, G.T0, "clock:leaf-" + lab, stats, vs, tz=tz)
 
     # ---- (b) lengths -----------------------------------------------------------------------
     def run_auth(self, case, stats, vs):
@@ -735,9 +756,27 @@ class C07(Check):
             d["elements"] = [d["elements"][0], w.att_element("attestation", G.V2_ROOT, "root")]
             self.evaluate(d, root_pem, G.T0, "kinds:attkey-under-root", stats, vs)
             # key encodings
-            for fmt in ("raw", "compressed"):
-                self.evaluate(with_("attestation", w.att_element("attestation", leaf, leaf, key_fmt=fmt)),
-                              root_pem, G.T0, "encoding:key-" + fmt, stats, vs)
+            for fmt in ("raw", "compressed", "hybrid"):
+                self.genuine(with_("attestation", w.att_element("attestation", leaf, leaf, key_fmt=fmt)),
+                             root_pem, G.T0, "genuine:key-" + fmt, stats, vs)
+                # the binding hashes the point (x || y), not the spelling of the key field
+                ne = w.att_element("attestation", leaf, leaf, key_fmt=fmt)
+                msg = bytearray(bytes.fromhex(ne["message"]))
+                msg[320:352] = hashlib.sha256(bytes.fromhex(ne["key"]) + bytes.fromhex(ne["auth_data"])).digest()
+                ne["message"] = bytes(msg).hex()
+                ne["signature"] = w.ec_sign(leaf, bytes(msg)).hex()
+                if fmt != "raw":
+                    self.evaluate(with_("attestation", ne), root_pem, G.T0, "binding:attkey-hash-of-spelling",
+                                  stats, vs)
+            # every hex / base64 field of the genuine chain in the other spellings the loader accepts
+            for e in doc["elements"]:
+                flds = [k2 for k2 in ("message", "custom_data", "key", "auth_data", "signature") if k2 in e]
+                for fld in flds:
+                    table = G.B64_SPELLINGS if e["type"] == "x509_pem" else G.HEX_SPELLINGS
+                    for sp, fn in table.items():
+                        d = G.clone(doc)
+                        G.element_of(d, e["name"])[fld] = fn(e[fld])
+                        self.genuine(d, root_pem, G.T0, "genuine:spelling:" + fld, stats, vs)
             # attestation key is a point of another curve
             for curve in ("k1", "p384"):
                 ne = w.att_element("attestation", leaf, leaf)
@@ -775,7 +814,6 @@ class C07(Check):
             ne["signature"] = w.ec_sign(leaf, bytes(msg)).hex()
             self.evaluate(with_("attestation", ne), root_pem, G.T0, "binding:attkey-shifted", stats, vs)
             # binding hashes the key in another encoding (uncompressed incl. 0x04)
-            import hashlib
             ne = w.att_element("attestation", leaf, leaf)
             msg = bytearray(bytes.fromhex(ne["message"]))
             msg[320:352] = hashlib.sha256(w.point("attkey") + bytes.fromhex(ne["auth_data"])).digest()
@@ -853,12 +891,15 @@ class C07(Check):
                     out.append(("first-failing-name", t))
         return out
 
-    def evaluate(self, doc, root_pem, now, label, stats, vs, open_=False, target="quote"):
+    def evaluate(self, doc, root_pem, now, label, stats, vs, open_=False, target="quote", tz="rotate"):
         stats.evaluations += 1
+        if tz == "rotate":
+            # every execution runs under one of the zones, in turn: the verdict must not depend on it
+            tz = ZONES[stats.evaluations % len(ZONES)]
         case = {"kind": "one", "doc": doc, "root_pem": root_pem, "now": iso(now), "label": label,
-                "open": open_, "target": target}
+                "open": open_, "target": target, "tz": tz}
         reason = v2_structure(doc)
-        got = self.impl.run_v2(doc, root_pem, now, guarded=reason is not None)
+        got = self.impl.run_v2(doc, root_pem, now, guarded=reason is not None, tz=tz)
         if got[0] == "budget":
             with self.hangs.get_lock():
                 self.hangs.value += 1
@@ -897,7 +938,7 @@ class C07(Check):
         fresh = None
         if label.startswith(("genuine", "ints", "multi:both-genuine")):
             def fresh():
-                return self.impl.run_v2(doc, root_pem, now)
+                return self.impl.run_v2(doc, root_pem, now, tz=tz)
         for clause, t in self.mismatch(doc, exp, got[1], fresh):
             et = exp.get(t, ev)
             fk = kinds.get(et[1], "") if et[0] == R.FAIL else ""
